@@ -202,6 +202,16 @@ def _check_histories(tier, seed):
             cc = c.copy()
             _touch(c, [acc])
             h.compare(c, cc, True, "copy_taken_before_access", acc, inp)
+            # 3b. a copy edited in place (one node longitude written through the copy's own array) differs from the original
+            c2 = _build(desc)
+            cc2 = c2.copy()
+            try:
+                cc2.node_lon.values[0] = float(cc2.node_lon.values[0]) + 1.0
+                edited = True
+            except Exception:  # noqa: BLE001   (read-only arrays: nothing to compare)
+                edited = False
+            if edited:
+                h.compare(c2, cc2, False, "copy_edited_in_place_one_longitude", "none", {"mesh": name})
             # 4. copy taken AFTER the access: against the original, against a fresh twin and against the early copy
             ca = c.copy()
             h.compare(c, ca, True, "copy_taken_after_access", acc, inp)
